@@ -5,7 +5,7 @@ import os
 from ..lib import cbuild, tlc
 from ..lib.common import workdir, rmworkdir, seed, log, MachineryError
 from ..lib.report import Report
-from ..drivers import loaddrv
+from ..drivers import loaddrv, replaylib
 
 PID = 'C12'
 KEYS = ('err', 'loaderr', 'org', 'len', 'start', 'stack', 'clear', 'm128', 'want7ffd', 'bin', 'tapedata', 'lcode', 'laddr', 'pc', 'sp',
@@ -40,9 +40,42 @@ def run(tier):
             key = 'load:stack-inside-first-3-bytes:%s' % clause
         rep.violation(key, 'bin2tap %s (org=%d len=%d start=%d stack=%d clear=%d) -> tap2sna: %s; pc=%s sp=%s %s'
                       % (' '.join(c['opts']), c['org'], c['len'], c['start'], c['stack'], c['clear'], clause, c['pc'], c['sp'],
-                         c['err'] or c['loaderr']), {k: c[k] for k in KEYS + ('opts', 'fmt', 'key')})
+                         c['err'] or c['loaderr']), {k: c[k] for k in KEYS + ('opts', 'fmt', 'key', 'gen')})
     rep.rule = ('binary size x ORG x START x STACK relation to the data (below / overlapping each pre-filled stack byte / inside / above) '
                 'x CLEAR x screen x {tap,pzx} x {48K, 128K with bank subsets, --7ffd, --loader}; distinct_nontrivial = distinct '
                 '(configuration class, stack-org, length, options)')
     rmworkdir('c12')
     return rep.finish()
+
+
+def replay(path):
+    """./check C12 --replay replays/C12-n.json : make the recorded program again, bin2tap and tap2sna of the current tree on it with
+    the recorded options, judged by LoadCases."""
+    d, rp = replaylib.load(path, PID)
+    replaylib.need(rp, path, 'org', 'len', 'start', 'stack', 'clear', 'opts', 'fmt', 'key', 'm128')
+    if 'gen' in rp:
+        try:
+            g, rnd = loaddrv.regen(rp['gen'])
+        except Exception as e:
+            raise MachineryError('unusable replay file %s: generator state: %s: %s' % (path, type(e).__name__, e))
+        got = (g['org'], g['size'], g['start'], g['stack'], g['clear'], g['opts'], g['fmt'])
+        want = (rp['org'], rp['len'], rp['start'], rp['stack'], rp['clear'], rp['opts'], rp['fmt'])
+        if got != want:
+            raise MachineryError('replay file %s was written by a different version of the C12 generator: it now makes %s, recorded %s' % (path, got, want))
+    else:
+        replaylib.need(rp, path, 'bin', 'want7ffd')
+        g, rnd = loaddrv.g_from_record(rp)
+        if g is None:
+            raise MachineryError('unusable replay file %s: the program is larger than 300 bytes and its bytes were not recorded' % path)
+    wd = workdir('replay-c12')
+    cbuild.preload()
+    c = loaddrv.run_case(wd, 0, g, rnd)
+    c.pop('ramfull', None)
+    if c['key'] != rp['key']:
+        raise MachineryError('replay of %s: rebuilt configuration %s is not the recorded %s' % (path, c['key'], rp['key']))
+    rs, fails = tlc.judge('load', 'LoadCases', 'LoadCases.cfg', [{k: c[k] for k in KEYS}], casefile=os.path.join(wd, 'load.json'))
+    found = ['load:%s:%s: bin2tap %s (org=%d len=%d start=%d stack=%d clear=%d) -> tap2sna: pc=%s sp=%s %s'
+             % (c['key'], clause, ' '.join(c['opts']), c['org'], c['len'], c['start'], c['stack'], c['clear'], c['pc'], c['sp'], c['err'] or c['loaderr'])
+             for _, clause in fails]
+    rmworkdir('replay-c12')
+    return replaylib.verdict(PID, path, found)
